@@ -19,7 +19,8 @@ RULE = ("cases: random polyhedra with 1-4 rows and 1-4 columns, bounds boolean /
         "from {+-1}, {-3..3,5,7}, big-M like {+-100, +-32767, 65535}, duplicate and zero rows, zero columns, rows that are always / never "
         "satisfiable; every nested call on the intermediate polyhedra of the fixpoint loop is judged too. non-trivial: the system "
         "is feasible and at least one row or column was reported reducible; distinct by digest of (matrix, bounds)")
-BUDGET = {"quick": (8, 150, 60), "thorough": (16, 3000, 900)}
+BUDGET = {"quick": (12, 130, 90), "thorough": (16, 2500, 1200)}
+PYTEST = True     # thorough tier also runs the repository's own tests under these monitors
 MANDATORY = ["judged:reducible-row-holds-everywhere", "judged:forced-column-value", "judged:reduce-preserves-projection",
              "judged:result-variables-and-index", "judged:reduce_rows-definition", "judged:reduce_columns-definition",
              "count:feasible", "count:infeasible", "count:some-row-reducible", "count:some-column-forced",
